@@ -911,6 +911,8 @@ def search(chk: core.Check) -> None:
     bad = [(c, x) for c, x in zip(cases, results) if x["violations"]]
     bad.sort(key=lambda cx: len(cx[0]["ops"]))
     account(chk, [c for c, _ in bad[:3]], [x for _, x in bad[:3]], with_model=False)
+    from verif.props import c16_wilcoxon
+    c16_wilcoxon.search(chk)
 
 
 def mutate_params(r: random.Random, spec: dict[str, Any]) -> dict[str, Any]:
@@ -931,9 +933,12 @@ def main(chk: core.Check) -> int:
     quick = chk.tier == "quick"
     # 1. regenerate the integer kernels from the source, 2. prove
     from verif.translators import pruners_int
+    from verif.props import c16_wilcoxon
     pruners_int.regenerate(chk)
+    c16_wilcoxon.prepare(chk)  # Generated/WilcoxonSkel.lean from optuna/pruners/_wilcoxon.py
+    chk.rule = RULE + " || " + c16_wilcoxon.RULE
     if not getattr(chk, "no_prove", False):
-        chk.prove(["OptunaVerif.Props.C16", "OptunaVerif.Props.C16Gen"])
+        chk.prove(["OptunaVerif.Props.C16", "OptunaVerif.Props.C16Gen"] + c16_wilcoxon.PROPS_MODULES)
     try:
         core.ensure_driver()
         drv = core.Driver("pruners")
@@ -954,6 +959,7 @@ def main(chk: core.Check) -> int:
             cases.append(c)
         results = run_cases(chk, cases)
         account(chk, cases, results, with_model=True)
+        c16_wilcoxon.correspond(chk, chk.tier)  # WilcoxonPruner.prune against Model/Wilcoxon.lean + docstring oracle
         try:
             bracket_oracle(chk, 25 if quick else 400)
         except Exception as e:  # the real pruner crashed while being driven: a broken tie, not an infrastructure failure
@@ -965,7 +971,6 @@ def main(chk: core.Check) -> int:
         "in-memory storage, one thread: the FrozenTrial handed to prune() and study.get_trials() show the same data",
         "float rounding: the model computes percentiles / min_delta sums over Q; generated values are small dyadic rationals (sums exact), and a percentile decision is accepted either way when the exact |best - p| <= 1e-9 relative",
         "crc32 is an input of the model (the real binascii.crc32 value is passed in); Hyperband's bracket count (a float math.log in the code) is read off the real pruner and compared with the exact integer logarithm only as a recorded observation",
-        "Wilcoxon pruner: not covered here",
     ]
     chk.trusted += ["numpy.nanpercentile / nanmin / nanmax (modelled operation by operation, tied by the function-level correspondence)", "binascii.crc32"]
     return chk.finish(search=search)
@@ -979,6 +984,9 @@ def replay(chk: core.Check, path: str) -> int:
     payload = json.load(open(path))
     if payload.get("kind") == "violation":
         w = payload["witness"]
+        if w.get("kind") == "wilcoxon":
+            from verif.props import c16_wilcoxon
+            return c16_wilcoxon.replay_case(chk, w)
         if "case" in w:
             res = run_case(w["case"], None)
             if res["violations"]:
